@@ -10,9 +10,9 @@ import shutil
 
 import pandas as pd
 
-SINGLE_TYPES = ['string', 'textfile', 'binary', 'dataframe', 'ondisk', 'csvframe']
+SINGLE_TYPES = ['string', 'textfile', 'binary', 'dataframe', 'ondisk', 'csvframe', 'csv2pq']      # csv2pq: actual file CSV, reference parquet
 EXT = {'string': '.txt', 'textfile': '.txt', 'textfiles': '.txt', 'binary': '.bin',
-       'dataframe': '.parquet', 'ondisk': '.parquet', 'csvframe': '.csv'}
+       'dataframe': '.parquet', 'ondisk': '.parquet', 'csvframe': '.csv', 'csv2pq': '.parquet'}
 
 
 class Fail(Exception):
@@ -30,8 +30,8 @@ def _assert_fn(x, msg):
 def text_pool(extra=()):
     base = [
         ['alpha\nbeta\n', 'alpha\nbeta'],
+        ['café ☃ \U0001F600\nl2\n', 'café ☃ \U0001F600\nl2'],       # (second: the exhaustive step replay uses the first two contents)
         ['alpha\ngamma\n'],
-        ['café ☃ \U0001F600\nl2\n', 'café ☃ \U0001F600\nl2'],
         ['one line, no newline'],
         ['x\ny\nz\n'],
         ['x\nz\ny\n'],
@@ -97,7 +97,7 @@ def csv_frame_pool():
 
 
 POOLS = {'string': text_pool, 'textfile': text_pool, 'textfiles': text_pool, 'binary': binary_pool,
-         'dataframe': frame_pool, 'ondisk': frame_pool, 'csvframe': csv_frame_pool}
+         'dataframe': frame_pool, 'ondisk': frame_pool, 'csvframe': csv_frame_pool, 'csv2pq': csv_frame_pool}
 
 
 def canon(ty, obj):
@@ -140,7 +140,12 @@ class Session:
 
     # ---- concretize -----------------------------------------------------------------------
     def refpath(self, p):
-        return os.path.join(self.refdir, p + EXT[self.path_types[p]])
+        ty = self.path_types[p]
+        if ty in ('string', 'textfile'):
+            # text references under other names than *.txt (what a reference is called says nothing about how it is read,
+            # *.pdf apart - the documented latin-1 case, not used here)
+            return os.path.join(self.refdir, p + ['.txt', '.ps', '.html', '.eps'][self.variant % 4])
+        return os.path.join(self.refdir, p + EXT[ty])
 
     def content(self, ty, cid, variant=None):
         vs = self.pools[ty][self.content_names.index(cid)]
@@ -244,9 +249,9 @@ class Session:
           with contextlib.redirect_stdout(io.StringIO()):
             if ty == 'string':
                 self.rt.assertStringCorrect(self.content(ty, actual_ids[0]), self.refpath(paths[0]), kind=k, **kwo)
-            elif ty in ('textfile', 'binary', 'ondisk', 'csvframe'):
-                ap = os.path.join(self.actdir, 'a%d%s' % (self.nact, EXT[ty]))
-                self.write_raw(ap, ty, self.content(ty, actual_ids[0]))
+            elif ty in ('textfile', 'binary', 'ondisk', 'csvframe', 'csv2pq'):
+                ap = os.path.join(self.actdir, 'a%d%s' % (self.nact, '.csv' if ty == 'csv2pq' else EXT[ty]))
+                self.write_raw(ap, 'csvframe' if ty == 'csv2pq' else ty, self.content(ty, actual_ids[0]))
                 if ty == 'textfile':
                     self.rt.assertTextFileCorrect(ap, self.refpath(paths[0]), kind=k, **kwo)
                 elif ty == 'binary':
